@@ -109,6 +109,11 @@ def parseFRec (j : Json) : R FRec := do
            selected := ← optInt (← fld j "selected"),
            idx := ← fldInt j "idx", value := ← fldInt j "value" }
 
+def parseLabelSpec (j : Json) : R LabelSpec := do
+  match (← arr j) with
+  | [i, l, v, d] => return { idx := ← optInt i, label := ← l.getStr?, value := ← optInt v, derived := ← optInt d }
+  | _ => throw "bad label spec"
+
 /-! limits -/
 
 def parseCRes (j : Json) : R CRes :=
@@ -242,6 +247,13 @@ def handle (j : Json) : R Json := do
     let vdict ← parseVdict (← fld j "vdict")
     let trace ← (← fldArr j "trace").mapM parseFRec
     return verdict (judgeFloatEnum vdict trace 0) (badIdxs (floatEnumOkB vdict) trace 0)
+  | "labels" =>
+    let specs ← (← fldArr j "specs").mapM parseLabelSpec
+    match parseLabels specs with
+    | none => return Json.mkObj [("ok", Json.bool false)]
+    | some r => return Json.mkObj [("ok", Json.bool true),
+        ("edict", jarr (r.edict.map (fun e => jarr [Json.str e.1, jint e.2]))),
+        ("vdict", jarr (r.vdict.map (fun e => jarr [jint e.1, jint e.2]))), ("lo", jint r.lo), ("hi", jint r.hi)]
   | "limits" =>
     let cfg ← lcfg j; let ops ← (← fldArr j "ops").mapM parseLOp
     let s0 := linit cfg (← fldInt j "value0")
